@@ -1,9 +1,201 @@
-(** * C12 - evolve / assoc build an independent, invariant-respecting copy. *)
+(** * C12 - evolve / assoc build an independent, invariant-respecting copy.
+
+    Property theorems only; each is closed by [exact] of a lemma from [C12/Proofs.v].
+    The model ([C12/Model.v]) sits on the shared class / initializer model ([Core/Init.v]):
+    [evolve] collects the original's current values by alias and calls the initializer of
+    C01 with keyword arguments only; [assoc] is [copy.copy] followed by raw stores.  Both
+    return (the original after the call, the outcome). *)
 From Coq Require Import List Bool String.
 Import ListNotations.
 From Attrs Require Import Core.Attr Core.Init Core.InitProofs Core.InitProps C12.Model C12.Proofs.
 Open Scope string_scope.
+Open Scope list_scope.
+
+(** ** evolve *)
+
+(** For every well-formed class with unique init aliases, every original whose not-replaced
+    init fields are readable and every change set keyed by init aliases: [evolve] returns the
+    original untouched and a NEW instance that is exactly what the initializer builds for the
+    environment binding each init alias to (the new value | the original's current value);
+    the callback trace is the initializer's trace for those arguments (validators iff
+    enabled); non-participating fields are unset, nothing else is written, the hash cache is
+    [None], [args] are those of a fresh exception instance. *)
+Theorem evolve_spec : forall k sc von i changes,
+  wf k -> make_init_script k = GenOk sc -> aliases_unique k ->
+  readable k i (map fst changes) -> changes_known k changes ->
+  let en := evolve_env sc k i changes in
+  (forall a, In a (k_attrs k) -> a_init a = true ->
+             lookup (alias_of a) en = Some (evolve_arg k i changes a)) /\
+  exists new,
+    evolve k no_fault von i changes = (i, EvoInit (InitDone new (expected_trace k von en))) /\
+    (forall a, In a (k_attrs k) -> participates a = true ->
+               read k new (a_name a) = Ok (spec_value a en)) /\
+    (forall a, In a (k_attrs k) -> participates a = false ->
+               read k new (a_name a) = Raise EAttributeError) /\
+    (forall m, ~ In m (map a_name (k_attrs k)) -> m <> HASH_CACHE ->
+               read k new m = Raise EAttributeError) /\
+    (k_cache_hash k = true -> read k new HASH_CACHE = Ok VNone) /\
+    i_args new = expected_args k en.
+Proof. exact evolve_spec_l. Qed.
+Print Assumptions evolve_spec.
+
+(** Field by field.  NOTE the second clause: "passed the original's current value" means
+    through the initializer, so the carried-over value is CONVERTED AGAIN
+    ([converted a old]); it equals [old] only for an idempotent converter.
+    [field_from_arg a v] is [converted a v] except that a factory field given [NOTHING]
+    gets a fresh factory value. *)
+Theorem evolve_fields : forall k sc von i changes,
+  wf k -> make_init_script k = GenOk sc -> aliases_unique k ->
+  readable k i (map fst changes) -> changes_known k changes ->
+  exists new t,
+    evolve k no_fault von i changes = (i, EvoInit (InitDone new t)) /\
+    (forall a v, In a (k_attrs k) -> a_init a = true -> lookup (alias_of a) changes = Some v ->
+       read k new (a_name a) = Ok (field_from_arg a v) /\
+       (is_nothing v = false -> read k new (a_name a) = Ok (converted a v))) /\
+    (forall a old, In a (k_attrs k) -> a_init a = true -> lookup (alias_of a) changes = None ->
+       read k i (a_name a) = Ok old ->
+       read k new (a_name a) = Ok (field_from_arg a old) /\
+       (is_nothing old = false -> read k new (a_name a) = Ok (converted a old))) /\
+    (forall a, In a (k_attrs k) -> a_init a = false -> has_default a = true ->
+       read k new (a_name a) = Ok (rederived a)) /\
+    (forall a, In a (k_attrs k) -> a_init a = false -> has_default a = false ->
+       read k new (a_name a) = Raise EAttributeError) /\
+    (k_cache_hash k = true -> read k new HASH_CACHE = Ok VNone).
+Proof. exact evolve_fields_l. Qed.
+Print Assumptions evolve_fields.
+
+(** An original that came out of the initializer: every unchanged init field of the
+    result holds converter(converter(argument | default | factory value)). *)
+Theorem evolve_reconverts : forall k sc von0 pos0 kw0 en0 i t0 von changes,
+  wf k -> make_init_script k = GenOk sc -> aliases_unique k ->
+  bind_call sc pos0 kw0 = Bound en0 -> run_init k no_fault von0 pos0 kw0 = InitDone i t0 ->
+  changes_known k changes ->
+  exists new t,
+    evolve k no_fault von i changes = (i, EvoInit (InitDone new t)) /\
+    forall a, In a (k_attrs k) -> a_init a = true -> lookup (alias_of a) changes = None ->
+      read k new (a_name a) = Ok (field_from_arg a (converted a (raw_value a en0))).
+Proof. exact evolve_reconverts_l. Qed.
+Print Assumptions evolve_reconverts.
+
+(** "As if freshly constructed": for EVERY fault oracle and validator switch the outcome of
+    [evolve] IS the outcome of calling the class with the merged keyword arguments - so every
+    statement of C01-C05 about a constructed instance (stored values, hash cache [None],
+    frozenness being a property of the class [k], exception propagation) applies verbatim. *)
+Theorem evolve_fresh_invariants : forall k f von i changes,
+  aliases_unique k -> readable k i (map fst changes) ->
+  evolve k f von i changes = (i, EvoInit (run_init k f von [] (evolve_kw k i changes))).
+Proof. exact evolve_runs_init. Qed.
+Print Assumptions evolve_fresh_invariants.
+
+(** A key that is no init alias: TypeError, and nothing ran (no trace, no instance). *)
+Theorem evolve_unknown_typeerror : forall k sc f von i changes n,
+  make_init_script k = GenOk sc -> aliases_unique k -> readable k i (map fst changes) ->
+  In n (map fst changes) ->
+  (forall a, In a (k_attrs k) -> a_init a = true -> alias_of a <> n) ->
+  evolve k f von i changes = (i, EvoInit InitTypeError).
+Proof. exact evolve_unknown_typeerror_l. Qed.
+Print Assumptions evolve_unknown_typeerror.
+
+(** Fields are named by alias: the (private) name itself is rejected; so is an init=False
+    field, by name or alias (same statement with that name). *)
+Theorem evolve_uses_alias_not_name : forall k sc f von i changes a,
+  make_init_script k = GenOk sc -> aliases_unique k -> readable k i (map fst changes) ->
+  In a (k_attrs k) -> In (a_name a) (map fst changes) ->
+  (forall b, In b (k_attrs k) -> a_init b = true -> alias_of b <> a_name a) ->
+  evolve k f von i changes = (i, EvoInit InitTypeError).
+Proof. exact evolve_uses_alias_not_name_l. Qed.
+Print Assumptions evolve_uses_alias_not_name.
+
+(** An init field that is unset on the original and not replaced: AttributeError before the
+    class is called. *)
+Theorem evolve_unset_attribute_error : forall k f von i changes a e0,
+  aliases_unique k -> In a (k_attrs k) -> a_init a = true -> ~ In (alias_of a) (map fst changes) ->
+  read k i (a_name a) = Raise e0 ->
+  evolve k f von i changes = (i, EvoReadError EAttributeError).
+Proof. exact evolve_unset_attribute_error_l. Qed.
+Print Assumptions evolve_unset_attribute_error.
 
 Theorem evolve_original_untouched : forall k f von i changes, fst (evolve k f von i changes) = i.
 Proof. exact evolve_original_untouched_l. Qed.
 Print Assumptions evolve_original_untouched.
+
+(** ** assoc *)
+
+(** Named fields hold the raw new value (no converter, validator, hook; frozen classes too),
+    every other field what the original holds, the original is untouched.  The hash cache is
+    reset when the class has a generated [__setstate__] and CARRIED OVER on a pure dict
+    chain (the root of K3a). *)
+Theorem assoc_spec : forall k inh i changes,
+  wf k -> copyable k inh i -> NoDup (map fst changes) ->
+  (forall n, In n (map fst changes) -> In n (map a_name (k_attrs k))) ->
+  exists new,
+    assoc k inh i changes = (i, AssocDone new) /\
+    (forall a, In a (k_attrs k) ->
+       read k new (a_name a) = match lookup (a_name a) changes with
+                               | Some v => Ok v
+                               | None => read k i (a_name a)
+                               end) /\
+    (has_getstate k inh = true -> k_cache_hash k = true -> read k new HASH_CACHE = Ok VNone) /\
+    (has_getstate k inh = false -> read k new HASH_CACHE = read k i HASH_CACHE).
+Proof. exact assoc_spec_l. Qed.
+Print Assumptions assoc_spec.
+
+(** The first name that is neither a field nor an attribute of tuple objects raises
+    AttrsAttributeNotFoundError (guarded form: see [assoc_count_index_refuted]). *)
+Theorem assoc_unknown_raises : forall k inh i pre n v post,
+  wf k -> copyable k inh i ->
+  (forall m, In m (map fst pre) -> In m (map a_name (k_attrs k))) ->
+  fields_getattr_found k n = false ->
+  assoc k inh i (pre ++ (n, v) :: post) = (i, AssocNotFound).
+Proof. exact assoc_unknown_raises_l. Qed.
+Print Assumptions assoc_unknown_raises.
+
+Theorem assoc_unset_attribute_error : forall k inh i changes a e0,
+  has_getstate k inh = true -> In a (k_attrs k) -> read k i (a_name a) = Raise e0 ->
+  assoc k inh i changes = (i, AssocRaised EAttributeError).
+Proof. exact assoc_unset_attribute_error_l. Qed.
+Print Assumptions assoc_unset_attribute_error.
+
+Theorem assoc_original_untouched : forall k inh i changes, fst (assoc k inh i changes) = i.
+Proof. exact assoc_original_untouched_l. Qed.
+Print Assumptions assoc_original_untouched.
+
+(** Hash consistency of the copy, guarded: generated [__getstate__]/[__setstate__] ... *)
+Theorem assoc_getstate_cache_consistent : forall k inh i changes,
+  wf k -> has_getstate k inh = true -> fields_readable k i -> k_cache_hash k = true ->
+  NoDup (map fst changes) ->
+  (forall n, In n (map fst changes) -> In n (map a_name (k_attrs k))) ->
+  exists new, assoc k inh i changes = (i, AssocDone new) /\ cache_consistent k new = true.
+Proof. exact assoc_getstate_cache_consistent_l. Qed.
+Print Assumptions assoc_getstate_cache_consistent.
+
+(** ... or a pure dict chain where no replaced field takes part in the hash. *)
+Theorem assoc_dict_cache_guarded : forall k inh i changes,
+  wf k -> has_getstate k inh = false -> cache_consistent k i = true ->
+  NoDup (map fst changes) ->
+  (forall n, In n (map fst changes) -> In n (map a_name (k_attrs k))) ->
+  (forall n, In n (map fst changes) -> ~ In n (hash_names k)) ->
+  exists new, assoc k inh i changes = (i, AssocDone new) /\ cache_consistent k new = true.
+Proof. exact assoc_dict_cache_guarded_l. Qed.
+Print Assumptions assoc_dict_cache_guarded.
+
+(** K3a - the unguarded statement is FALSE of the faithful model (and of the code). *)
+Theorem assoc_stale_cache_refuted :
+  exists k inh i changes new,
+    wf k /\ k_cache_hash k = true /\ has_getstate k inh = false /\
+    fields_readable k i /\ cache_consistent k i = true /\
+    NoDup (map fst changes) /\
+    (forall n, In n (map fst changes) -> In n (hash_names k)) /\
+    assoc k inh i changes = (i, AssocDone new) /\
+    read k new HASH_CACHE = read k i HASH_CACHE /\
+    cache_consistent k new = false.
+Proof. exact assoc_stale_cache_refuted_l. Qed.
+Print Assumptions assoc_stale_cache_refuted.
+
+(** K3b - [count] / [index] are accepted although they are not fields. *)
+Theorem assoc_count_index_refuted :
+  exists k inh i n v new,
+    wf k /\ ~ In n (map a_name (k_attrs k)) /\ (n = "count" \/ n = "index") /\
+    assoc k inh i [(n, v)] = (i, AssocDone new) /\ read k new n = Ok v.
+Proof. exact assoc_count_index_refuted_l. Qed.
+Print Assumptions assoc_count_index_refuted.
